@@ -16,9 +16,11 @@ centre-of-mass or boosted lab frame).  Checked against oracles written from the 
             topologies (every topology's own dictionary evaluated separately)
   cse       cse=True and cse=False give the same numbers
 
-Tolerances: every comparison uses  tol = 1e-9 + 2000 * (max change of the ORACLE value when the
+Tolerances: every comparison uses  tol = 1e-8 + 1e6 * (max change of the ORACLE value when the
 input momenta are perturbed componentwise by +-2^-52 x the largest energy of the event, three random perturbations): an empirical
-condition-number bound, so poles (theta ~ 0, phi undefined), near-threshold decays and large
+condition-number bound (the float64 chain of up to four boosts loses a further factor over the
+input-perturbation estimate, each boost computing gamma from 1-beta^2; the largest ratio
+error/deviation seen on the clean tree is printed as "max_err_over_dev", ~1e4, hence 1e6), so poles (theta ~ 0, phi undefined), near-threshold decays and large
 boosts widen their own tolerance; a variable whose tolerance exceeds 1e-3 for an event is
 counted as ill-conditioned and skipped for that event.  phi is compared modulo 2 pi.
 """
@@ -42,6 +44,8 @@ from tie_C07 import data_to_topo, has_double, topo_to_data, variant  # noqa: E40
 from ampform.kinematics import HelicityAdapter  # noqa: E402
 from ampform.kinematics.angles import formulate_scattering_angle  # noqa: E402
 
+AMPLIFY = 1e6  # see module docstring
+RATIO = [0.0]  # largest observed |implementation - oracle| / oracle-deviation (diagnostic)
 KNOWN_FAMILY = "angle_name_overwritten_two_decaying_children"
 
 
@@ -110,7 +114,8 @@ MASSES = [0.0, 0.0, 0.000511, 0.13957, 0.49368, 0.93827, 1.86484, 5.279]
 
 
 def two_body(rng, M, m1, m2, n):
-    q2 = (M * M - (m1 + m2) ** 2) * (M * M - (m1 - m2) ** 2)
+    # product form: no cancellation near threshold, q > 0 whenever M > m1 + m2
+    q2 = (M - m1 - m2) * (M + m1 + m2) * (M - m1 + m2) * (M + m1 - m2)
     q = np.sqrt(np.maximum(q2, 0)) / (2 * M)
     c = rng.uniform(-1, 1, n)
     ph = rng.uniform(-np.pi, np.pi, n)
@@ -219,7 +224,7 @@ def perturbed(rng, momenta):
     scale = np.max(np.stack([np.abs(p[:, 0]) for p in momenta.values()]), axis=0)[:, None]
     out = {}
     for i, p in momenta.items():
-        out[i] = p + rng.choice([-1.0, 1.0], size=p.shape) * 2.0 ** -52 * scale
+        out[i] = p + rng.choice([-1.0, 1.0], size=p.shape) * rng.uniform(0.5, 1.0, size=p.shape) * 2.0 ** -52 * scale
     return out
 
 
@@ -231,7 +236,7 @@ def oracle_with_tol(fun, momenta, rng, periodic):
         v1 = fun(perturbed(rng, momenta))
         d = angdiff(v1, v0) if periodic else np.abs(np.asarray(v1 - v0, dtype=float))
         dev = np.maximum(dev, np.where(np.isfinite(d), d, np.inf))
-    return v0, 1e-9 + 2000 * dev
+    return v0, 1e-8 + AMPLIFY * dev
 
 
 def build_adapter(case):
@@ -259,6 +264,7 @@ def check_case(case, momenta, n, rng_tol, M0):
     got = evaluate(names, syms, f, momenta, n)
     final_ids = sorted(momenta)
     n_eval = n_ill = 0
+    tols = {}
 
     # specs of all registered topologies, per name
     specs = {}
@@ -272,9 +278,13 @@ def check_case(case, momenta, n, rng_tol, M0):
         n_ill += int((~ok).sum())
         n_eval += int(ok.sum())
         err = angdiff(val.real, oracle) if periodic else np.abs(val.real - np.asarray(oracle, dtype=float))
+        tols[name] = tol
         bad = ok & ~((err <= tol) & (np.abs(val.imag) <= tol))
+        if not bad.any() and ok.any():
+            r = np.where(ok, err / np.maximum((tol - 1e-8) / AMPLIFY, 1e-16), 0)
+            RATIO[0] = max(RATIO[0], float(np.nanmax(r)))
         if bad.any():
-            j = int(np.argmax(np.where(bad, err, -1)))
+            j = int(np.argmax(np.where(bad, np.nan_to_num(err, nan=np.inf), -1)))
             fails.append((sig, f"{name}: implementation {val[j]:.12g} vs oracle {float(oracle[j]):.12g} "
                                f"(tol {tol[j]:.2g}, event {j}; {detail})", name))
             return False
@@ -389,7 +399,7 @@ def check_case(case, momenta, n, rng_tol, M0):
             hel_theta = val if hel == i else np.pi - val  # siblings are back to back in the isobar rest frame
             cmp(name, hel_theta, cf, tol * 50 + extra, False, "theta_not_dalitz",
                 f"closed form {sym} of formulate_scattering_angle({i},{j})")
-    return n_eval, n_ill, fails, got, (names, syms)
+    return n_eval, n_ill, fails, got, tols
 
 
 def run_case(case, want_cse_cross=True):
@@ -403,19 +413,27 @@ def run_case(case, want_cse_cross=True):
         n = case["n_events"]
         momenta, M0 = gen_events(rng, ids, n, case["mode"], case["lab"])
     rng_tol = np.random.default_rng(case["event_seed"] + 1)
-    n_eval, n_ill, fails, got, _ = check_case(case, momenta, n, rng_tol, M0)
+    n_eval, n_ill, fails, got, tols = check_case(case, momenta, n, rng_tol, M0)
     if want_cse_cross and not fails and case.get("cross_cse"):
         other = dict(case, cse=not case["cse"])
         adapter = build_adapter(other)
         names, syms, f = lambdify_dict(adapter.create_expressions(), other["cse"])
         got2 = evaluate(names, syms, f, momenta, n)
         for k in got:
-            d = angdiff(got[k].real, got2[k].real) if k.startswith("phi") else np.abs(got[k] - got2[k])
-            scale = 1 + np.abs(got[k])
-            n_eval += n
-            if (np.nan_to_num(d / scale, nan=0.0) > 1e-6).any() and not k.startswith("m_"):
-                # cross-check against conditioning: only report where the oracle comparison was well conditioned
-                fails.append(("cse_changes_value", f"{k}: cse={case['cse']} and cse={other['cse']} differ by {float(np.nanmax(d)):.3g}", k))
+            if k not in tols or k not in got2:
+                continue
+            if k.startswith("m_"):
+                d = np.abs(got[k] ** 2 - got2[k] ** 2)
+                ids = [int(ch) for ch in k[2:]]
+                tol = tols[k] + 1e-12 * np.asarray(sum(momenta[i][:, 0] for i in ids) ** 2, dtype=float)
+            else:
+                d = angdiff(got[k].real, got2[k].real) if k.startswith("phi") else np.abs(got[k] - got2[k])
+                tol = tols[k]
+            ok = tol < 1e-3
+            n_eval += int(ok.sum())
+            if (ok & ~(d <= 2 * tol)).any():
+                fails.append(("cse_changes_value", f"{k}: cse={case['cse']} and cse={other['cse']} differ by "
+                              f"{float(np.nanmax(np.where(ok, d, 0))):.3g}", k))
                 break
     return n_eval, n_ill, fails, momenta
 
@@ -510,7 +528,7 @@ def main():
             stored["momenta"] = store_momenta(momenta, range(case["n_events"]))
             failures.append({"signature": sig, "what": what, "case": stored})
     print(json.dumps({"evaluations": tot_eval, "distinct": distinct, "samples": samples, "kinds": kinds,
-                      "ill_conditioned_skipped": tot_ill, "failures": failures}))
+                      "ill_conditioned_skipped": tot_ill, "max_err_over_dev": RATIO[0], "failures": failures}))
 
 
 if __name__ == "__main__":
